@@ -33,12 +33,14 @@ META = {
         "evaluates to the signed sum of its leaves (all operation sequences, by induction); independence of the duration format, refusal of mixed scales and of "
         "time+time / duration-time, scale and format of every result, and a rounding-error bound (two-part arithmetic on "
         "half-integer day parts loses < 0.04 ns for any rounding function with relative error 2^-53). The methods' bodies are "
-        "re-read from /repo on every run and proved (kernel) to equal the model with the quirk set Coq computes for them; the "
-        "duration formats and everything numpy does (broadcasting, freezing) are tied by the correspondence."),
+        "re-read from /repo on every run and proved (kernel) to equal the model with the quirk set Coq computes for them; so are "
+        "TimeDeltaArray.__neg__ and the eight _to_jds/_from_jds bodies of the four duration formats (unit factors, floor split). "
+        "Operand integrity: state machine over cells, theorem for all call sequences; rounding bound discharged for IEEE "
+        "binary64 with Flocq. numpy broadcasting and datetime.timedelta rounding are tied by the correspondence."),
     "level_note": (
         "Trusted: Coq kernel + vm_compute; the ast translator in harness/drivers/c03.py (about 150 lines, refuses what it does not "
-        "know); the hand model of the four TimeDelta formats; IEEE doubles are shipped exactly, rounding itself is only "
-        "axiomatised abstractly (relative error bound) in the accuracy theorem."),
+        "know); that numpy's float64 + is IEEE binary64 addition (Flocq's b64_plus); standard real-number axioms in "
+        "two_part_accuracy_binary64."),
 }
 
 THEOREMS = [
@@ -1334,7 +1336,7 @@ def run(ctx):
     from midgard.data.time import Time
     scales = list(Time.SCALES)
     rng = ctx.rng
-    n_scen = 150 if ctx.quick() else 2500
+    n_scen = 150 if ctx.quick() else 2000
     specs = [json.loads(json.dumps(c)) for c in CORPUS]
     for _ in range(n_scen):
         specs.append(gen_scenario(rng, scales))
